@@ -434,6 +434,7 @@ def main(rep, ws, tier):
     check_next(rep, ws)
     check_colour(rep, ws, tier)
     check_roots(rep, ws)
+    check_cubic_double_root(rep, ws)
     rep.floor('utility obligations', len(rep.obs), 30)
     rep.assumptions += ['NaN-free operands for the order rules', 'exact real arithmetic for lerp identities', 'no intermediate negation overflows in divs/mods/divp/modp (the property\'s proviso)', '|x| < 2^31 for floor/ceil/trunc (int(x) defined)']
     rep.undecided_clauses += ['accuracy of the root solvers', 'rgb<->hsv round trip and packed round trip (run-time arithmetic)']
@@ -589,6 +590,117 @@ def check_colour(rep, ws, tier):
                 ok = z.op == 'fmul' and any(a.op == 'const' and T.const_value(a) == mx for a in z.args)
                 if not ok: bad = 'result slot %d is %s, expected T(c * %d)' % (i, T.show(o, 3)[:200], mx); break
         rep.ob(oid, 'R17.col', VIOLATED if bad else HOLDS, bad or ('scaled by exactly %d in double on the way in and out' % mx if mx else 'converted component-wise, no scaling'), whereh)
+
+def check_cubic_double_root(rep, ws):
+    """R17.roots, solveNormalizedCubic on the cell D = 0, p != 0 (one double and one simple root):  x^3 + r x^2 + s x + t with
+    p = -3 rho^2 and q = -+ 2 rho^3 (rho > 0), i.e. y^3 + p y + q = (y -+ 2 rho)(y +- rho)^2.  The complex arithmetic of the
+    branch is followed through the C99 / libstdc++ definitions of its callees on this cell: csqrt(0) = 0, clog(x + 0i) =
+    (log|x|, 0 or pi), pow(x, 1/3) for x > 0, exp(log(rho^3)/3) = rho, cos/sin(pi/3) = 1/2, sqrt(3)/2.  The function must return
+    n = 2 and the set {simple root, double root}."""
+    where = 'src/Imath/ImathRoots.h'
+    tu = TU('c17_cubic0', header=HDR)
+    tu.add('w_nc', 'int& n, const double& r, const double& s, const double& t, double& x0, double& x1, double& x2', 'double x[3] = {0, 0, 0}; n = solveNormalizedCubic(r, s, t, x); x0 = x[0]; x1 = x[1]; x2 = x[2];')
+    try:
+        mod = ws.module(tu.name, tu.source(), opaque=())
+        S = vg.Interp(mod).run('w_nc')
+    except (build.BuildError, vg.Unsupported) as e:
+        rep.ob('solveNormalizedCubic#double-root', 'R17.roots', UNDECIDED, str(e)[:300], where); return
+    r_in, s_in, t_in = (T.inp('a%d' % i, 0, 8, 'double') for i in (1, 2, 3))
+    rho = T.inp('q#rho', 0, 8, 'double')
+    THIRD = Fraction(1, 3)
+    def near(c, v): return c.op == 'const' and not isinstance(T.const_value(c), str) and abs(float(T.const_value(c)) - v) < 1e-15
+    for cell, sgn in (('q < 0 (simple root above the double root)', -1), ('q > 0 (simple root below the double root)', 1)):
+        oid = 'solveNormalizedCubic#double-root[%s]' % ('q<0' if sgn < 0 else 'q>0')
+        try:
+            ctx = P.Ctx(); ctx.cancel = True
+            kr, krho = ctx.key(r_in), ctx.key(rho)
+            ctx.positive.add(krho)
+            R_, RHO = P.patom(kr), P.patom(krho)
+            p_ = P.pscale(P.ppow(RHO, 2), -3); q_ = P.pscale(P.ppow(RHO, 3), 2 * sgn)
+            # s = p + r^2/3 ;  t = q - 2 r^3/27 + r s/3
+            s_poly = P.padd(p_, P.pscale(P.ppow(R_, 2), THIRD))
+            t_poly = P.padd(P.padd(q_, P.pscale(P.ppow(R_, 3), Fraction(-2, 27))), P.pscale(P.pmul(R_, s_poly), THIRD))
+            ctx.lin[ctx.key(s_in)] = s_poly; ctx.lin[ctx.key(t_in)] = t_poly
+            SQ3 = ctx.sqrt_poly(P.pconst(3))
+            LOGRHO = (P.patom(ctx.key(T.inp('q#logrho', 0, 8, 'double'))), P.pconst(1)); PI = (P.patom(ctx.key(T.inp('q#pi', 0, 8, 'double'))), P.pconst(1))
+            def mono_rho(rt):
+                """rt = c * rho^k -> (c, k) or None"""
+                if rt[1] != P.pconst(1) or len(rt[0]) != 1: return None
+                (m, c), = rt[0].items()
+                if len(m) == 1 and m[0][0] == krho: return (c, m[0][1])
+                return None
+            def cstruct(call):
+                a = [ctx.rat(z) for z in call.args]
+                if call.attr == 'csqrt':
+                    if ctx.rzero(a[0]) and ctx.rzero(a[1]): return (({}, P.pconst(1)), ({}, P.pconst(1)))
+                    raise P.NotPoly('csqrt of a non-zero argument')
+                if call.attr == 'clog':
+                    if not ctx.rzero(a[1]): raise P.NotPoly('clog of a non-real argument')
+                    mk = mono_rho(a[0])
+                    if mk is None or abs(mk[0]) != 1: raise P.NotPoly('clog argument is not +-rho^k')
+                    return ((P.pscale(LOGRHO[0], mk[1]), P.pconst(1)), PI if mk[0] < 0 else ({}, P.pconst(1)))
+                if call.attr in ('__divdc3', '__divsc3') and len(a) == 4:
+                    den = ctx.radd(ctx.rmul(a[2], a[2]), ctx.rmul(a[3], a[3]))
+                    neg_ = lambda z: (P.pneg(z[0]), z[1])
+                    return (ctx.rdiv(ctx.radd(ctx.rmul(a[0], a[2]), ctx.rmul(a[1], a[3])), den), ctx.rdiv(ctx.radd(ctx.rmul(a[1], a[2]), neg_(ctx.rmul(a[0], a[3]))), den))
+                if call.attr in ('__muldc3', '__mulsc3') and len(a) == 4:
+                    neg_ = lambda z: (P.pneg(z[0]), z[1])
+                    return (ctx.radd(ctx.rmul(a[0], a[2]), neg_(ctx.rmul(a[1], a[3]))), ctx.radd(ctx.rmul(a[0], a[3]), ctx.rmul(a[1], a[2])))
+                raise P.NotPoly('struct-valued call %s' % call.attr)
+            orig_rat = ctx._rat; orig_call = ctx.call
+            def _rat(n):
+                if n.op == 'extractvalue' and n.args[0].op == 'call': return cstruct(n.args[0])[n.attr[0]]
+                if n.op == 'const' and near(n, 1 / 3.0): return (P.pconst(THIRD), P.pconst(1))
+                if n.op == 'const' and near(n, 3 ** 0.5): return SQ3
+                return orig_rat(n)
+            def call(n):
+                if n.attr == 'exp':
+                    a = ctx.rat(n.args[0])
+                    if a[1] == P.pconst(1) and len(a[0]) == 1:
+                        (m, c), = a[0].items()
+                        if m == ((ctx.key(T.inp('q#logrho', 0, 8, 'double')), 1),) and c == int(c) and c > 0: return (P.ppow(RHO, int(c)), P.pconst(1))
+                    raise P.NotPoly('exp of %s' % P.show_rat(a, ctx)[:60])
+                if n.attr in ('cos', 'sin'):
+                    a = ctx.rat(n.args[0])
+                    if ctx.rzero(a): return (P.pconst(1 if n.attr == 'cos' else 0), P.pconst(1))
+                    if ctx.requal(a, (P.pscale(PI[0], THIRD), P.pconst(1))): return (P.pconst(Fraction(1, 2)), P.pconst(1)) if n.attr == 'cos' else (P.pscale(SQ3[0], Fraction(1, 2)), P.pconst(1))
+                    raise P.NotPoly('%s of %s' % (n.attr, P.show_rat(a, ctx)[:60]))
+                if n.attr == 'pow':
+                    a, e = ctx.rat(n.args[0]), ctx.rat(n.args[1])
+                    mk = mono_rho(a)
+                    if mk and mk[0] == 1 and ctx.requal(e, (P.pconst(THIRD), P.pconst(1))) and mk[1] % 3 == 0: return (P.ppow(RHO, mk[1] // 3), P.pconst(1))
+                    raise P.NotPoly('pow(%s, %s)' % (P.show_rat(a, ctx)[:40], P.show_rat(e, ctx)[:20]))
+                return orig_call(n)
+            ctx._rat = _rat; ctx.call = call
+            outs = [S.out('a0', 0, 4, 'i32'), S.out('a4', 0, 8, 'double'), S.out('a5', 0, 8, 'double')]
+            def premise(c):
+                if c.op == 'fcmp' and c.attr in ('ord', 'uno'): return c.attr == 'ord'
+                if c.op == 'fcmp' and c.attr in ('olt', 'ole') and any(z.op == 'const' and T.const_value(z) == 0 for z in c.args):
+                    zi = 0 if (c.args[0].op == 'const' and T.const_value(c.args[0]) == 0) else 1
+                    try: rt = ctx.rat(c.args[1 - zi])
+                    except P.NotPoly: return None
+                    if ctx.rzero(rt): return c.attr == 'ole'
+                    mk = mono_rho(rt)
+                    if mk is None: return None
+                    pos = mk[0] > 0                      # rho > 0
+                    return pos if zi == 0 else (not pos)
+                return None
+            def enum(c): return False
+            cases = list(PC.generic_cases(outs, ctx, enumerate_cond=enum, premise=premise))
+            if len(cases) != 1: raise PC.Undecided('%d paths on the cell' % len(cases))
+            asg, res = cases[0]
+            n_ = res[0]
+            if not (n_.op == 'const' and n_.attr[1] == 2):
+                rep.ob(oid, 'R17.roots', VIOLATED, 'on the cell D = 0, %s the number of roots reported is %s, expected 2' % (cell, T.show(n_, 2)), where); continue
+            x0, x1 = ctx.rat(res[1]), ctx.rat(res[2])
+            shift = (P.pscale(R_, -THIRD), P.pconst(1))
+            simple = ctx.radd((P.pscale(RHO, -2 * sgn), P.pconst(1)), shift); double_ = ctx.radd((P.pscale(RHO, sgn), P.pconst(1)), shift)
+            ok = (ctx.requal(x0, simple) and ctx.requal(x1, double_)) or (ctx.requal(x0, double_) and ctx.requal(x1, simple))
+            rep.ob(oid, 'R17.roots', HOLDS if ok else VIOLATED,
+                   'returns the simple root %s and the double root %s' % (P.show_rat(simple, ctx), P.show_rat(double_, ctx)) if ok else
+                   'on the cell D = 0, %s the roots returned are {%s, %s}; the cubic (x+r/3 %s 2rho)(x+r/3 %s rho)^2 has the simple root %s and the double root %s' % (cell, P.show_rat(x0, ctx)[:60], P.show_rat(x1, ctx)[:60], '+' if sgn > 0 else '-', '-' if sgn > 0 else '+', P.show_rat(simple, ctx), P.show_rat(double_, ctx)), where)
+        except (P.NotPoly, PC.Undecided, vg.Unsupported, OverflowError) as e:
+            rep.ob(oid, 'R17.roots', UNDECIDED, str(e)[:300], where)
 
 def check_roots(rep, ws):
     tu = TU('c17_roots', header=HDR)
